@@ -14,6 +14,8 @@ package c20seq
 
 import (
 	"fmt"
+	"os"
+	"strconv"
 	"strings"
 
 	"verif/engine/core"
@@ -70,19 +72,23 @@ func coreInterferers() []Script {
 	return out
 }
 
-// unordered pairs i <= j of n items, index addressable.
-func unrankPair(k, n uint64) (uint64, uint64) {
-	for i := uint64(0); i < n; i++ {
-		row := n - i
-		if k < row {
-			return i, i + k
+// tripleInterferers lists the {X, Y} of a triple family as indices into
+// orderedInterferers() (X <= Y).  Block family: at least one of the two is a
+// Core interferer; statement family: both are.
+func tripleInterferers(fam string) [][2]int {
+	ints := orderedInterferers()
+	nCore := len(coreInterferers()) // Core ones come first
+	var out [][2]int
+	for i := 0; i < nCore; i++ {
+		for j := i; j < len(ints); j++ {
+			if fam == famTripStmt && j >= nCore {
+				break
+			}
+			out = append(out, [2]int{i, j})
 		}
-		k -= row
 	}
-	panic("unrankPair: out of range")
+	return out
 }
-
-func nPairs(n uint64) uint64 { return n * (n + 1) / 2 }
 
 // caseDef is a resolved case.
 type caseDef struct {
@@ -118,15 +124,12 @@ func resolve(fam string, idx uint64) (*caseDef, error) {
 		}, nil
 	case famTripBlock, famTripStmt:
 		ints := orderedInterferers()
-		if fam == famTripStmt {
-			ints = coreInterferers()
-		}
-		n := uint64(len(ints))
-		if idx >= nPairs(n)*nObs {
+		prs := tripleInterferers(fam)
+		if idx >= uint64(len(prs))*nObs {
 			return nil, fmt.Errorf("index out of range")
 		}
-		i, j := unrankPair(idx/nObs, n)
-		x, y, b := ints[i], ints[j], Observers[idx%nObs]
+		pr := prs[idx/nObs]
+		x, y, b := ints[pr[0]], ints[pr[1]], Observers[idx%nObs]
 		cd := &caseDef{Key: fmt.Sprintf("interferers=%s+%s observer=%s clause=interference", x.Name, y.Name, b.Name)}
 		if fam == famTripBlock {
 			cd.Actors = []*actor{
@@ -141,14 +144,8 @@ func resolve(fam string, idx uint64) (*caseDef, error) {
 				{Role: 'o', Name: b.Name, Steps: stmtSteps(b, 3)},
 			}
 		}
-		// positions of x and y in the pair family's pool (interferers first)
-		for _, s := range []Script{x, y} {
-			for p, q := range orderedInterferers() {
-				if q.Name == s.Name {
-					cd.Pairs = append(cd.Pairs, uint64(p)*nObs+idx%nObs)
-				}
-			}
-		}
+		// positions of x and y in the pair family's pool (same order)
+		cd.Pairs = []uint64{uint64(pr[0])*nObs + idx%nObs, uint64(pr[1])*nObs + idx%nObs}
 		return cd, nil
 	}
 	return nil, fmt.Errorf("unknown family %q", fam)
@@ -256,6 +253,23 @@ func runCase(fam string, idx uint64) core.Outcome {
 	return out
 }
 
+// Wall-clock budgets (seconds) of the long families; the main package may
+// change them before calling Families.  C20SEQ_BUDGET_SCALE=<n> multiplies
+// them (development runs on a loaded machine).
+var (
+	BudgetPairsQuick    = 100
+	BudgetPairsThorough = 200
+	BudgetTripBlock     = 240
+	BudgetTripStmt      = 240
+)
+
+func scaled(b int) int {
+	if k, err := strconv.Atoi(os.Getenv("C20SEQ_BUDGET_SCALE")); err == nil && k > 0 {
+		return b * k
+	}
+	return b
+}
+
 // Families returns the sequential-interleaving families of C20.
 func Families(tier string) []*core.Family {
 	nObs := uint64(len(Observers))
@@ -265,23 +279,23 @@ func Families(tier string) []*core.Family {
 			Size:        size,
 			Run:         func(i uint64) core.Outcome { return runCase(name, i) },
 			Show:        func(i uint64) string { return show(name, i) },
-			HangSeconds: 400,
+			HangSeconds: 1500,
 		}
 	}
 	pairs := mk(famPairs, uint64(len(interfererPool(tier == "thorough")))*nObs)
 	// Never fail on time.  Cases are ordered interferer x observer first,
 	// observer x observer last, so a cut on an overloaded machine drops the
 	// least interesting pairs (reported as exhaustive=false).
-	pairs.BudgetSeconds = 100
+	pairs.BudgetSeconds = scaled(BudgetPairsQuick)
 	if tier == "thorough" {
-		pairs.BudgetSeconds = 300
+		pairs.BudgetSeconds = scaled(BudgetPairsThorough)
 	}
 	fams := []*core.Family{mk(famSelf, nObs), pairs}
 	if tier == "thorough" {
-		tb := mk(famTripBlock, nPairs(uint64(len(Interferers)))*nObs)
-		ts := mk(famTripStmt, nPairs(uint64(len(coreInterferers())))*nObs)
+		tb := mk(famTripBlock, uint64(len(tripleInterferers(famTripBlock)))*nObs)
+		ts := mk(famTripStmt, uint64(len(tripleInterferers(famTripStmt)))*nObs)
 		// never fail on time: a loaded machine makes the run non exhaustive
-		tb.BudgetSeconds, ts.BudgetSeconds = 420, 420
+		tb.BudgetSeconds, ts.BudgetSeconds = scaled(BudgetTripBlock), scaled(BudgetTripStmt)
 		fams = append(fams, tb, ts)
 	}
 	return fams
